@@ -52,6 +52,8 @@ def build_sig_class(deco, params, H):
     else:
         src += "    @state(first=True)\n    def a(self):\n        H.call('a')\n    @default_state\n"
     src += f"    def x({plist}):\n        H.call('x', {kw})\n"
+    if H.raise_first:
+        src += "        if len([1 for n, _, _ in H.calls if n == 'x']) == 1:\n            raise RuntimeError('the first call of the state function fails')\n"
     exec(compile(src, f"<sig {deco} {params}>", "exec"), ns)
     return ns["M"]
 
@@ -66,6 +68,7 @@ def sig_path(c, job):
     H.clock = clock
     H.posonly = job.get("posonly", 0)
     H.defaults = job.get("defaults", 0)
+    H.raise_first = bool(job.get("raise_first"))
     M = build_sig_class(deco, params, H)
     sm = M()
     smc._NTID[0] += 1
@@ -83,6 +86,11 @@ def sig_path(c, job):
         try:
             sm.execute()
         except Exception as e:
+            if H.raise_first and i == 0 and "first call of the state function fails" in repr(e):
+                # the caller (the robot framework under the FMS) swallows it and keeps iterating
+                c.reach("sig-first-call-raised")
+                nows.append(clock.reads[n])
+                continue
             c.prove("C03.sig state-function-callable-with-its-own-signature", False,
                     info=dict(deco=deco, params=list(params), posonly=H.posonly, defaults=H.defaults, exc=repr(e)[:120]))
             return
@@ -130,6 +138,7 @@ class C03(SMSpec):
         sig = [dict(kind="sig", deco=d, params=list(p)) for d in ("state", "timed", "default") for p in SUBSETS]
         sig += [dict(kind="sig", deco=d, params=list(p), posonly=k) for d in ("state", "timed", "default")
                 for p in SUBSETS if len(p) >= 2 for k in (1, len(p))]
+        sig += [dict(kind="sig", deco=d, params=["initial_call", "state_tm", "tm"], raise_first=True) for d in ("state", "timed", "default")]
         sig += [dict(kind="sig", deco=d, params=list(p), defaults=k) for d in ("state", "timed", "default")
                 for p in SUBSETS if len(p) >= 1 for k in sorted({1, len(p)})]
         if tier == "quick":
@@ -153,7 +162,7 @@ class C03(SMSpec):
     def reach_required(self, tier):
         return ["sig-restart", "sig-param-tm", "sig-param-state_tm", "sig-param-initial_call", "engagement-start",
                 "requested-state-runs", "untimed-continues", "timed-expired", "restart", "nested-call",
-                "default-consecutive", "default-fallback", "forced-engage", "forced-engage-into-running-state"]
+                "default-consecutive", "default-fallback", "forced-engage", "forced-engage-into-running-state", "sig-first-call-raised"]
 
     def path_fn(self, c, job):
         if job["kind"] == "sig":
